@@ -1,6 +1,7 @@
 package pmc
 
 import (
+	"bytes"
 	"fmt"
 	"sort"
 	"sync"
@@ -61,7 +62,10 @@ func mkBlockRefMsg(env string, b brefT, s signerT, share []byte, blk interfaces.
 func mkBlockRefMsgPad(env string, b brefT, s signerT, share []byte, blk interfaces.Block, pad []byte) *interfaces.ConsensusRawMessage {
 	hdr := b.builder()
 	if pad != nil {
-		hdr = protocol.BlockRefBuilderFromRaw(append(append([]byte{}, hdr.Build().Raw()...), pad...))
+		hdr = protocol.BlockRefBuilderFromRaw(nonCanonical(hdr.Build().Raw(), pad, func(m []byte) bool {
+			x, y := protocol.BlockRefReader(m), protocol.BlockRefReader(hdr.Build().Raw())
+			return x.MessageType() == y.MessageType() && x.InstanceId() == y.InstanceId() && x.BlockHeight() == y.BlockHeight() && x.View() == y.View() && bytes.Equal(x.BlockHash(), y.BlockHash())
+		}))
 	}
 	snd := s.sign(b.H, hdr.Build().Raw())
 	switch env {
@@ -72,6 +76,30 @@ func mkBlockRefMsgPad(env string, b brefT, s signerT, share []byte, blk interfac
 	default:
 		return wrap(&protocol.LeanhelixContentBuilder{Message: protocol.LEANHELIX_CONTENT_MESSAGE_COMMIT_MESSAGE, CommitMessage: &protocol.CommitContentBuilder{SignedHeader: hdr, Sender: snd, Share: share}}, nil)
 	}
+}
+
+// ncAlign as pad: instead of appending bytes, flip a byte the reader never looks at (alignment padding between
+// fields): same length, same fields, other bytes.
+var ncAlign = []byte{0xA1}
+
+// nonCanonical returns an encoding of the same fields that differs from the canonical bytes: the canonical bytes
+// followed by pad, or (pad == ncAlign) the canonical bytes with the first byte changed that leaves every field as it was.
+func nonCanonical(canon, pad []byte, sameFields func([]byte) bool) []byte {
+	if len(pad) == 1 && pad[0] == ncAlign[0] {
+		for i := range canon {
+			m := append([]byte{}, canon...)
+			m[i] ^= 0xff
+			ok := false
+			func() {
+				defer func() { recover() }()
+				ok = sameFields(m)
+			}()
+			if ok {
+				return m
+			}
+		}
+	}
+	return append(append([]byte{}, canon...), pad...)
 }
 
 type proofT struct {
@@ -106,7 +134,11 @@ type voteT struct {
 func (v voteT) builder() *protocol.ViewChangeMessageContentBuilder {
 	hdr := &protocol.ViewChangeHeaderBuilder{MessageType: v.T, InstanceId: v.I, BlockHeight: v.H, View: v.V, PreparedProof: v.Proof.builder()}
 	if v.Pad != nil {
-		hdr = protocol.ViewChangeHeaderBuilderFromRaw(append(append([]byte{}, hdr.Build().Raw()...), v.Pad...))
+		canon := hdr.Build().Raw()
+		hdr = protocol.ViewChangeHeaderBuilderFromRaw(nonCanonical(canon, v.Pad, func(m []byte) bool {
+			x, y := protocol.ViewChangeHeaderReader(m), protocol.ViewChangeHeaderReader(canon)
+			return x.MessageType() == y.MessageType() && x.InstanceId() == y.InstanceId() && x.BlockHeight() == y.BlockHeight() && x.View() == y.View() && bytes.Equal(x.RawPreparedProof(), y.RawPreparedProof())
+		}))
 	}
 	return &protocol.ViewChangeMessageContentBuilder{SignedHeader: hdr, Sender: v.S.sign(v.H, hdr.Build().Raw())}
 }
